@@ -3,6 +3,8 @@
 import json, sys
 pid = sys.argv[1]; variant = sys.argv[2] if len(sys.argv) > 2 else ''
 wt = '/tmp/wt/%s%s' % (pid, variant); out = '/tmp/seed/%s%s' % (pid, variant)
+extra = ('- The statement has several sentences/clauses and the mechanism spans several functions (and often several files/dialects). Do NOT take the first, most obvious spot: '
+         'survey the candidates first, then pick a less obvious one (a different clause of the statement, a secondary code path, a helper, an exception path, a sibling implementation).') if variant else ''
 p = [json.loads(l) for l in open('/verif/properties.jsonl') if json.loads(l)['id'] == pid][0]
 print(f"""You are helping to evaluate a verification tool. Your job: make ONE small, realistic change to the Python ORM "Pony" (ponyorm/pony) that BREAKS the property below, while the code still imports/compiles and the project's existing test suite still passes exactly as before.
 
@@ -23,6 +25,7 @@ WHAT KIND OF CHANGE
 - It must need something SPECIFIC to manifest: a particular multi-step sequence of operations, an unusual input/value, a fault or exception at a particular point, a particular interleaving of two threads/sessions, or two cooperating sites that each look fine alone. NOT something ordinary use (or the existing tests) would expose at once.
 - It must really violate the property as stated (observable through Pony's public API), not just change internals.
 - Prefer changing the core mechanism (not just an error message, not a test, not docs). Do not add new files to pony/.
+{extra}
 
 DELIVERABLES (write them into {out}/ ):
 1. {out}/patch.diff  — output of `git -C {wt} diff` (unified diff, applies with `git apply` to the unmodified tree).
